@@ -21,7 +21,7 @@ BUDGET = {"quick": 400, "thorough": 4000}
 MIN_NONTRIVIAL = {"quick": 200, "thorough": 1500}
 REQUIRED_FUNCTIONS = ["utils.py:match_template", "utils.py:to_DiGraph", "program.py:BlackbirdProgram.__call__"]
 FUNCTIONS = REQUIRED_FUNCTIONS + ["utils.py:match_template.<locals>.node_match"]
-REQUIRED_TAGS = ["reordered", "repeated-parameter", "form:bare", "form:negated", "form:affine", "form:divided", "neg:gate", "neg:modes", "neg:modes-permuted", "neg:modes-same-digits", "neg:order", "neg:version", "neg:version-same-value", "neg:target"]
+REQUIRED_TAGS = ["reordered", "repeated-parameter", "form:bare", "form:negated", "form:affine", "form:divided", "neg:gate", "neg:modes", "neg:modes-permuted", "neg:modes-same-digits", "neg:order", "neg:version", "neg:version-same-value", "neg:target", "edit-in-place-after-match"]
 ASSUMPTIONS = ["per-mode order = order of operations sharing a mode (register arguments are not generated here)", "returned values are compared at relative 1e-9"]
 
 
@@ -220,6 +220,21 @@ def check_case(ctx, text, vals, tags, witness=None):
         i, j = rng.choice(pairs)
         ops[i], ops[j] = ops[j], ops[i]
     Q = program_with(P, ops, version=ver, target=tgt)
+    if rng.random() < 0.4:
+        # the same program object: matched successfully first, then edited in place, then matched again
+        Q0 = program_with(P, copy.deepcopy(P.operations))
+        try:
+            with common.time_limit(20):
+                match_template(T, Q0)
+            Q0._operations[:] = ops
+            if ver is not None:
+                Q0._version = ver
+            if tgt is not None:
+                Q0._target["name"] = tgt
+            Q = Q0
+            tags = set(tags) | {"edit-in-place-after-match"}
+        except Exception:
+            pass
     ctx.case(text + repr(sorted(vals.items())) + "edit:" + edit, True, tags=sorted(set(tags) | {"neg:" + edit}))
     w = dict(witness, edit=edit)
     try:
